@@ -341,3 +341,12 @@ func VerifC14_ThriftBase() {
 	nested(rs.FieldById(1).Type().Struct(), "C14.thriftbase.response.nested")
 	nested(rs.FieldById(2).Type().Elem().Struct(), "C14.thriftbase.response.list-element")
 }
+
+// VerifParse exposes parse to harnesses of other packages (hand-built ASTs; thriftgo's symbol resolution, which
+// those ASTs do not need, is skipped under the engine).
+func VerifParse(tree *parser.Thrift, opts Options) (*ServiceDescriptor, error) {
+	if vrt.Symbolic() {
+		vrt.Redirect("github.com/cloudwego/thriftgo/semantic.ResolveSymbols", func(*parser.Thrift) error { return nil })
+	}
+	return parse(context.Background(), tree, meta.LastServiceOnly, opts)
+}
